@@ -18,6 +18,9 @@ struct W {
     /// one honest standalone proof per installed set, made when the set was installed and
     /// re-submitted byte for byte at every later step
     kept: Vec<([u8; 32], ProofPlan)>,
+    /// one approved batch per installed set, approved when the set was installed; the identical
+    /// approval call is repeated at every later step
+    kept_batches: Vec<(Vec<MMessage>, ProofPlan)>,
     operator: soroban_sdk::Address,
     u: U,
     ring: KeyRing,
@@ -34,10 +37,40 @@ fn probe_all(ctx: &Ctx, rep: &mut Report, w: &mut W, rng: &mut Rng) -> bool {
         let plan = plan_honest(&w.ring, &m.domain, &m.sets[i], &dh, &all_slots(&m.sets[i]));
         w.kept.push((dh, plan));
     }
+    while w.kept_batches.len() < m.sets.len() {
+        let i = w.kept_batches.len();
+        w.ctr += 1;
+        let msg = MMessage {
+            source_chain: b"chain".to_vec(),
+            message_id: format!("kept-{}-{}", i, w.ctr).into_bytes(),
+            source_address: b"src".to_vec(),
+            contract: w.g.sc.clone(),
+            payload_hash: rng.bytes32(),
+        };
+        let plan = plan_honest(&w.ring, &m.domain, &m.sets[i], &approve_data_hash(&[msg.clone()]), &all_slots(&m.sets[i]));
+        w.kept_batches.push((vec![msg], plan));
+    }
     for (i, set) in m.sets.iter().enumerate() {
         let e = i as u64 + 1;
         let gap = cur - e;
         let retained = gap <= m.retention;
+        {
+            // the identical approval call (same batch, same proof): honoured while the set is retained
+            // (it changes nothing the second time), refused afterwards
+            let (msgs, plan) = w.kept_batches[i].clone();
+            let o = w.g.do_approve(&mut w.u, &msgs, &plan);
+            if o.ok() {
+                w.g.model.apply_approve(&msgs);
+            }
+            rep.eval("approve_messages-identical-earlier-call", &format!("keptb|ret={}|gap={}|{}", m.retention.min(99), gap, o.ok()), true);
+            if o.ok() != retained {
+                rep.violation(
+                    &format!("{}:approve_messages-identical-earlier-call", if o.ok() { "honoured-expired-set" } else { "refused-retained-set" }),
+                    format!("the identical approval call authorised by the set of epoch {} repeated at epoch {} (gap {}, retention {}): accepted={}, expected {}", e, cur, gap, m.retention, o.ok(), retained),
+                );
+                return false;
+            }
+        }
         {
             // the identical proof that was (or would have been) accepted earlier
             let (dh, plan) = w.kept[i].clone();
@@ -142,7 +175,7 @@ pub fn run(ctx: &Ctx, rep: &mut Report) {
         let operator = u.principal();
         let initial: Vec<MSigners> = (0..n_init).map(|_| gen_wellformed_set(&mut rng, &mut ring, 3)).collect();
         let g = Gw::deploy(&mut u, &owner, &operator, rng.bytes32(), 0, retention, &initial);
-        let mut w = W { kept: Vec::new(), operator: operator.clone(), u, ring, g, ctr: 0 };
+        let mut w = W { kept: Vec::new(), kept_batches: Vec::new(), operator: operator.clone(), u, ring, g, ctr: 0 };
         rep.step(format!("world retention={} n_init={} code={}", retention, n_init, code));
         if !probe_all(ctx, rep, &mut w, &mut rng) {
             continue;
@@ -180,7 +213,7 @@ pub fn run(ctx: &Ctx, rep: &mut Report) {
         }
     }
     rep.exhaustive = Some(true);
-    rep.notes.insert("required".into(), json!(["validate_proof", "validate_proof-identical-earlier-proof", "approve_messages", "rotate-bypass", "rotate-plain", "normal-newest", "bypass-oldest-retained", "bypass-newest"]));
+    rep.notes.insert("required".into(), json!(["validate_proof", "validate_proof-identical-earlier-proof", "approve_messages-identical-earlier-call", "approve_messages", "rotate-bypass", "rotate-plain", "normal-newest", "bypass-oldest-retained", "bypass-newest"]));
     rep.notes.insert("bounds".into(), json!({"retentions": retentions.iter().map(|r| r.to_string()).collect::<Vec<_>>(), "initial_sets": [1, 2, 3], "history_length": len, "histories_per_config": seqs}));
     rep.notes.insert("rule".into(), json!("exhaustive within bounds: every (retention, number of initial sets, rotation history of the stated length over {normal by newest, bypass by oldest retained set, bypass by newest}); after deployment and after each rotation every installed set is probed with an honest all-signers proof on validate_proof, approve_messages, bypass rotation and plain rotation (each at a checkpoint, rolled back), and with the byte-identical standalone proof made when the set was installed (not rolled back, so that anything remembered about it persists); expectation: honoured iff current_epoch - epoch <= retention (plain rotation: iff newest). distinct = (path, retention, epoch gap, outcome)"));
 }
